@@ -365,6 +365,7 @@ func zzC02Discipline(cmd int) {
 	zzAssert(ril, "C02/struct: every read of the log that feeds a later write happens while holding the flock")
 	zzAssert(nb, "C02/struct: every flock is non-blocking (LOCK_NB): a command never waits for the lock")
 	zzAssert(exl, "C02/struct: every flock taken by a mutating command is exclusive (LOCK_EX)")
+	zzAssert(zzLockFileStable(), "C02/struct: the lock file is created in place and never replaced by a rename (commands that opened the old file and commands that open the new one would hold locks on different files)")
 	zzAssert(zzLockFDOwned(), "C02/struct: the locked descriptor is a raw descriptor owned by withLock (not an *os.File's, which the runtime may close - and so unlock - at any garbage collection)")
 	if errors.Is(err, ErrLockBusy) {
 		_, _, n := zzLogShape(getEventsPath(dir))
